@@ -3,6 +3,7 @@ mod framework;
 mod hooks;
 mod l2;
 mod panics;
+mod pipe;
 mod rng;
 mod scenarios;
 mod simio;
